@@ -84,6 +84,7 @@ type frame struct {
 }
 
 type Interp struct {
+	jsonErr string // set by jsonValue when encoding/json rejects a value (NaN, infinities)
 	prog    *ssa.Program
 	ld      *Loaded
 	tt      *TermTable
@@ -1327,6 +1328,10 @@ func (in *Interp) unop(fr *frame, x *ssa.UnOp) Value {
 	case token.NOT:
 		return in.tt.Not(v.(*Term))
 	case token.SUB:
+		if f, ok := v.(*OpaqueV); ok && f.kind == "float" && f.data != nil {
+			nf := -f.data.(float64)
+			return &OpaqueV{kind: "float", data: nf}
+		}
 		return in.tt.Un(OpNeg, v.(*Term))
 	case token.XOR:
 		return in.tt.Un(OpNot, v.(*Term))
